@@ -396,9 +396,9 @@ class TimeDependentConnections:
         self.full_name = full_name
         self.type = interpop_type
         self.from_pop_type = from_pop_type
-        self.from_pops = from_pops
+        self.from_pops = list(from_pops)  # Copy, because callers may pass the same list for both (and the lists are edited when populations are added, renamed or removed)
         self.to_pop_type = to_pop_type
-        self.to_pops = to_pops
+        self.to_pops = list(to_pops)
         self.tvec = tvec
         self.ts = ts if ts is not None else sc.odict()
 
